@@ -23,15 +23,15 @@ func vName(k int) string {
 	case 0:
 		return "_oauth2_proxy"
 	case 1:
-		return "s"
+		return strings.Repeat("n", 255) // part names are shortened to stay within 256 bytes
 	case 2:
 		return "a+b.c"
 	case 3:
-		return strings.Repeat("n", 250)
+		return "s"
 	case 4:
-		return strings.Repeat("n", 254)
+		return strings.Repeat("n", 250)
 	case 5:
-		return strings.Repeat("n", 255)
+		return strings.Repeat("n", 254)
 	}
 	return strings.Repeat("n", 256)
 }
